@@ -59,6 +59,32 @@ def check(run):
         with cf.ThreadPoolExecutor(max_workers=nproc) as ex:
             outs = list(ex.map(lambda k: vlib.run_overlay_test(hbin, "TestVerifHsrv", [hc[k]], run.rundir, tag="c06io_%d" % k,
                                                                   env=dict(os.environ, VERIF_TMP=run.rundir), timeout=600), range(nproc)))
+        # a unidirectional client guessing what an /io request's key might look like (readable prefix + counter, percent-encoded slash, ...)
+        H = lambda x: x.encode().hex()
+        guesses = ["io%2F1", "io%2F2", "io1", "io-1", "1", "io%2F", "bidir1"]
+        gacts = []
+        for g in guesses:
+            gacts += [{"a": "open", "id": "u", "req": H("POST /o/%s HTTP/1.1\r\nHost: h\r\nTransfer-Encoding: chunked\r\n\r\n" % g), "quiet_ms": 100},
+                      {"a": "open", "id": "b", "req": H("POST /io HTTP/1.1\r\nHost: h\r\nTransfer-Encoding: chunked\r\n\r\n"), "quiet_ms": 150},
+                      {"a": "line", "l": H("PROBE"), "quiet_ms": 80}, {"a": "peek", "id": "b", "quiet_ms": 10},
+                      {"a": "close", "id": "b", "quiet_ms": 100}, {"a": "close", "id": "u", "quiet_ms": 250}]
+        gres, gerr = vlib.run_overlay_test(hbin, "TestVerifHsrv", [{"i": 0, "cfg": {}, "acts": gacts}], run.rundir, tag="c06guess",
+                                           env=dict(os.environ, VERIF_TMP=run.rundir), timeout=300)
+        forged = []
+        if gres:
+            ga = gres[0].get("acts") or []
+            ready = (gres[0].get("consts") or {}).get("ready", "Shell is ready")
+            for n, g in enumerate(guesses):
+                A = ga[6 * n:6 * n + 6]
+                got_ready = any(ready in bytes.fromhex(l["line"]).decode(errors="replace") for a in A[:3] for l in a.get("och") or [])
+                got_line = b"PROBE" in bytes.fromhex((A[3] if len(A) > 3 else {}).get("got", "") or "")
+                if got_ready or got_line:
+                    forged.append({"unidirectional_request": "POST /o/" + g, "then": "POST /io", "ready_notice": got_ready, "operator_line_reached_the_io_request": got_line})
+        for b in forged[:1]:
+            run.violation("http-io-forged-key", "a unidirectional /o/{id} client and a later /io request were combined into one shell: the /io request's key can be "
+                          "named by a client", {"stream": "http-io", "input": b, "detail": forged})
+        run.oblige("HTTP surface: a unidirectional client cannot name an /io request's key (%d guesses, incl. percent-encoded slashes)" % len(guesses),
+                   not gerr and bool(gres) and not forged, json.dumps(forged[:3]) + str(gerr))
         pairs = [p for o in outs if o[0] for p in ((o[0][0].get("acts") or [{}])[0].get("pairs") or [])]
         crossed = [p for p in pairs if p.get("in") and p.get("out") and set(p["in"]) != set(p["out"])]
         attached = sum(1 for p in pairs if p.get("in") and p.get("out"))
